@@ -13,7 +13,7 @@
  *   fault <off> <0|1>             > fault ok        (with -DFMT_FAULT, C01) the next 16-byte fcache_pread() at file
  *                                 offset <off> (an LKCD page descriptor) fails once: 0 = KDUMP_ERR_SYSTEM (EIO), 1 = KDUMP_ERR_BUSY
  *   unfault                       > fault fired|pending    and disarms
- *   vsym|vline <hexname|->        > vsym <status> <num | ->   /  > vline <status> <hex>. | -     (kdump_vmcoreinfo_symbol / _line)
+ *   vsym|vline <hexname|->        > vsym <status> <num | ->   /  > vline <status> <hex>. | -   then ` | <error string | ->`  (kdump_vmcoreinfo_symbol / _line)
  *   close
  *   tree                          > tree key=value|key=value|...   (whole attribute tree)
  * Every line also carries the C16 monitor verdict (status documented, message
@@ -215,7 +215,7 @@ static void run_cmd(kdump_ctx_t *ctx, char *line)
 			printf("> vline %s ", kstatus_name(st));
 			if (st == KDUMP_OK) { for (h = v; *h; ++h) printf("%02x", (unsigned char)*h); putchar('.'); free(v); } else printf("-");
 		}
-		printf("%s\n", c16_monitor(ctx, st));
+		{ const char *e = kdump_get_err(ctx); printf("%s | %s\n", c16_monitor(ctx, st), e && *e ? e : "-"); }
 	} else if (!strcmp(line, "tree")) {
 		kdump_attr_ref_t root;
 		kdump_status st = kdump_attr_ref(ctx, NULL, &root);
